@@ -204,16 +204,25 @@ func (h *HyperLogLog32) UnmarshalBinary(b []byte) error {
 			return fmt.Errorf("card: mismatched hash function: dst=%s src=%s", dstHash, srcHash)
 		}
 	}
-	err = dec.Decode(&h.p)
+	var p uint8
+	err = dec.Decode(&p)
 	if err != nil {
 		return err
 	}
-	h.m = uint32(1) << h.p
-	h.register = h.register[:0]
-	err = dec.Decode(&h.register)
+	if p < 4 || w32 <= p {
+		return errors.New("card: precision out of range")
+	}
+	var register []uint8
+	err = dec.Decode(&register)
 	if err != nil {
 		return err
 	}
+	if uint64(len(register)) != uint64(1)<<p {
+		return errors.New("card: mismatched sketch length and precision")
+	}
+	h.p = p
+	h.m = uint32(1) << p
+	h.register = register
 	return nil
 }
 
